@@ -386,6 +386,25 @@ func (g *Gen) run() {
 					labels = append(labels, "frame/"+k)
 					terms = append(terms, fmt.Sprintf("(forall ((s Slice) (j Int)) (! (=> (select %s (sbase s)) (= (%s %s s j) (%s %s s j))) :pattern ((%s %s s j))))", alloc0.S, sel, h1.S, sel, h0.S, sel, h1.S))
 				}
+				if strings.HasPrefix(k, "MV:") || strings.HasPrefix(k, "MD:") || strings.HasPrefix(k, "ptr:") {
+					// maps and pointer cells that existed at function entry keep their contents unless the contract names the heap
+					h0, had := g.entry.heap[k]
+					h1 := st.heap[k]
+					if !had || h0.S == h1.S {
+						continue
+					}
+					matched := false
+					for _, mm := range g.ctr.Modifies {
+						if heapKeyMatches(k, mm) {
+							matched = true
+						}
+					}
+					if matched {
+						continue
+					}
+					labels = append(labels, "frame/"+k)
+					terms = append(terms, fmt.Sprintf("(forall ((r Int)) (=> (select %s r) (= (select %s r) (select %s r))))", alloc0.S, h1.S, h0.S))
+				}
 				continue
 			}
 			h0, had := g.entry.heap[k]
@@ -449,6 +468,8 @@ func (g *Gen) run() {
 					}
 				} else if isSlice(prm.Type()) {
 					g.w.assume(fmt.Sprintf("(or (= (sbase %s) 0) (select %s (sbase %s)))", pv.S, alloc0.S, pv.S))
+				} else if _, isMap := prm.Type().Underlying().(*types.Map); isMap {
+					g.w.assume(fmt.Sprintf("(or (= %s 0) (select %s %s))", pv.S, alloc0.S, pv.S))
 				}
 			}
 			if assumeNonNilParams && g.ctr == nil {
@@ -1109,6 +1130,18 @@ var dispenserDrivers = map[string]bool{
 // type *Dispenser, and the Dispenser embedded by value in a parameter's struct (c *casket.Controller).
 func (g *Gen) dispenserRefs(st *State) []string {
 	var out []string
+	// a Dispenser held by value whose address is taken (NewStaticUpstreams(c casketfile.Dispenser, ...)): its heap cell
+	if len(g.f.Blocks) > 0 {
+		for _, in := range g.f.Blocks[0].Instrs {
+			if al, ok := in.(*ssa.Alloc); ok && g.escaping[al] {
+				if pt, ok := al.Type().Underlying().(*types.Pointer); ok && types.TypeString(pt.Elem(), nil) == "github.com/tmpim/casket/casketfile.Dispenser" {
+					if v, ok := g.vals[al]; ok {
+						out = append(out, v.S)
+					}
+				}
+			}
+		}
+	}
 	for _, prm := range g.f.Params {
 		pt, ok := prm.Type().Underlying().(*types.Pointer)
 		if !ok {
